@@ -134,8 +134,8 @@ pub fn check_case(case: &Case) -> CaseResult {
         "{:?} with writers suspended after {:?} of their steps (writer holds the lock: {lock_held_by_writer}, slot half written: {writer_mid_slot_write})",
         case.solo, case.suspend_after
     );
-    if run.livelock {
-        return Err(Fail::new("reader-unbounded", format!("{desc}: a thread took more than {} hooked steps", abt::STEP_LIMIT)));
+    if run.livelock || run.final_read_unbounded {
+        return Err(Fail::new("reader-unbounded", format!("{desc}: a thread took more than {} hooked steps (or a final snapshot with no writer running did not complete)", abt::STEP_LIMIT)));
     }
     if run.solo_blocked {
         return Err(Fail::new("waits-for-writer", format!("{desc}: the caller blocked and could only finish once a suspended writer was resumed")));
@@ -244,8 +244,8 @@ pub fn check_starve(case: &StarveCase) -> CaseResult {
         case.segments,
         case.freeze_writer_after
     );
-    if run.livelock {
-        return Err(Fail::new("reader-unbounded", format!("{desc}: a thread took more than {} hooked steps", abt::STEP_LIMIT)));
+    if run.livelock || run.final_read_unbounded {
+        return Err(Fail::new("reader-unbounded", format!("{desc}: a thread took more than {} hooked steps (or a final snapshot with no writer running did not complete)", abt::STEP_LIMIT)));
     }
     if run.solo_blocked {
         return Err(Fail::new("waits-for-writer", format!("{desc}: the reader blocked and could only finish once the writer ran again")));
@@ -347,7 +347,12 @@ fn starve_strategy() -> impl Strategy<Value = StarveCase> {
 }
 
 fn writer_op() -> impl Strategy<Value = Op> {
-    prop_oneof![3 => (1u64..7).prop_map(Op::Update), 1 => (1u64..7).prop_map(Op::TryUpdate)]
+    // (one update in nine carries a base time whose valid voucher is all zeroes, one, all ones, ...)
+    let remarkable = (0usize..8).prop_map(|k| {
+        let t = super::c14::remarkable_bases();
+        t.get(k % t.len().max(1)).copied().unwrap_or(3)
+    });
+    prop_oneof![6 => (1u64..7).prop_map(Op::Update), 2 => (1u64..7).prop_map(Op::TryUpdate), 1 => remarkable.prop_map(Op::Update)]
 }
 
 fn case_strategy() -> impl Strategy<Value = Case> {
